@@ -290,7 +290,17 @@ def exec_and_validate(domain, scripts, workdir, module, cfg, events_per_chunk=15
             with open(sp, "w") as f:
                 for s in todo:
                     f.write(json.dumps(s, separators=(",", ":")) + "\n")
-            p = sh([BIN, domain, sp, tpp], timeout=1200)
+            hung = False
+            try:
+                p = sh([BIN, domain, sp, tpp], timeout=900)
+            except ToolError:
+                # the code under test did not terminate (the harness itself has no loops without bound)
+                hung = True
+
+                class _P:
+                    returncode = -999
+                    stdout = "no termination within 900 s"
+                p = _P()
             if p.returncode == 0:
                 break
             # the code under test brought the process down (abort / segfault): find the script
@@ -302,7 +312,9 @@ def exec_and_validate(domain, scripts, workdir, module, cfg, events_per_chunk=15
             idx = next((i for i, s in enumerate(todo) if s.get("tid") == cur), None)
             if idx is None:
                 raise ToolError("harness failed on %s (exit %d):\n%s" % (sp, p.returncode, p.stdout[-2000:]))
-            crashes.append({"tid": cur, "line": 0, "p": "*", "m": "the implementation crashed the process while executing this script",
+            crashes.append({"tid": cur, "line": 0, "p": "*",
+                            "m": ("the implementation did not terminate while executing this script" if hung
+                                  else "the implementation crashed the process while executing this script"),
                             "d": "exit status %d; %s" % (p.returncode, p.stdout[-300:].replace("\n", " "))})
             # keep the complete scripts recorded before the crash, continue after the crashed one
             keep = []
@@ -326,7 +338,7 @@ def exec_and_validate(domain, scripts, workdir, module, cfg, events_per_chunk=15
             with open(tpp, "w") as f:
                 f.writelines(keep[:cut])
             todo = todo[idx + 1:]
-            if len(crashes) >= 25:
+            if len(crashes) >= 25 or hung:
                 todo = []      # enough evidence; the rest of this chunk is not executed
             part += 1
             if not todo:
